@@ -36,7 +36,8 @@ MANIFEST = {
             "Model/Coords + Model/Domains, binary64 instance compared bit for bit with the code",
     "technique": "Lean 4 proof (induction over the generator loops, floor/ceil arithmetic) + dual-instance differential run",
     "design_ref": "DESIGN.md §4 C03",
-    "note": "float rounding enters only as the measured <= 1e-9 distance between the two instances",
+    "note": "float rounding enters as the measured <= 1e-9 distance between the two instances; proved (2^-51) for rectangular; "
+            "zoned_outcomes characterises exactly which positive inputs make the bi-zoned generator raise",
 }
 
 TOL = 1e-9
@@ -484,7 +485,8 @@ def run(ctx: core.Ctx):
         "hand-written models Model/Coords.lean + Model/Domains.lean; binary64 instance (R = fl64) tied to the code bit for bit "
         "on every case (shapes, errors, hash of all coordinate bit patterns; full coordinates for small cases)",
         "fl64 / round9 (IEEE round-to-nearest-even and Python round(x, 9) in rational arithmetic) checked against CPython on random operands each run",
-        "the theorems are about the exact instance (R = id); its distance to the binary64 instance is measured point by point by the driver (<= 1e-9 relative)",
+        "the theorems are about the exact instance (R = id); its distance to the binary64 instance is measured point by point by the driver (<= 1e-9 relative); "
+        "for `rectangular` that distance is also a theorem (fl64_relative_error: 2^-53 per operation; rectangular_binary64_robust: 2^-51 per coordinate off the branch boundaries)",
         "numpy / scipy cKDTree / fractions in the predicate oracle",
     ]
     ctx.assumptions += [
